@@ -80,6 +80,8 @@ fn alphabet(d: Dir) -> Vec<Op> {
         Op::Str("ab".into()),
         Op::Str("a,b;c".into()),
         Op::Str("é".into()),
+        // strings are emitted as their bytes: a backslash is a byte like any other
+        Op::Str("x\\ny\\0".into()),
     ];
     if d == Dir::Dq {
         // one beyond the 64-bit range can only be written as an overflowing expression
@@ -246,6 +248,7 @@ pub fn run(tier: Tier) -> i32 {
     let items: Vec<SeqItem> = vec![
         SeqItem::Data(Dir::Db, vec![Op::Val("0x11".into(), Some(0x11))]),
         SeqItem::Data(Dir::Db, vec![Op::Str("abc".into()), Op::Val("7".into(), Some(7)), Op::Val("8".into(), Some(8))]),
+        SeqItem::Data(Dir::Db, vec![Op::Str("p\\tq".into())]),
         SeqItem::Data(Dir::Db, vec![Op::Val("0x21".into(), Some(0x21)), Op::Val("0x22".into(), Some(0x22))]),
         SeqItem::Data(Dir::Dw, vec![Op::Val("0x3132".into(), Some(0x3132))]),
         SeqItem::Data(Dir::Dd, vec![Op::Val("0x41424344".into(), Some(0x41424344))]),
@@ -312,13 +315,13 @@ pub fn run(tier: Tier) -> i32 {
     rep.guard(nimg > 500, "fewer than 500 distinct images");
     rep.sample(|| { let a = alphabet(Dir::Dw); let ops = vec![a[3].clone(), a[6].clone(), a[4].clone()]; json!({"source": program(Seg::C, &[line(Dir::Dw, &ops)]), "expected_flash": emit(Dir::Dw, &ops, true).map(|b| sut::hex(&b))}) });
     rep.sample(|| { let a = alphabet(Dir::Db); let ops = vec![a[12].clone(), a[13].clone()]; json!({"source": program(Seg::E, &[line(Dir::Db, &ops)]), "expected_eeprom": emit(Dir::Db, &ops, false).map(|b| sut::hex(&b))}) });
-    rep.sample(|| { let a = alphabet(Dir::Db); let ops = vec![a[14].clone()]; json!({"source": program(Seg::C, &[line(Dir::Db, &ops)]), "expected": "err"}) });
+    rep.sample(|| { let a = alphabet(Dir::Db); let ops = vec![a[15].clone()]; json!({"source": program(Seg::C, &[line(Dir::Db, &ops)]), "expected": "err"}) });
     rep.assume("an empty operand list is not generated (the statement does not say whether `.db` alone is valid)");
     rep.assume("legal ranges: .db -128..255, .dw -32768..65535, .dd -2^31..2^32-1, .dq any i64 (overflowing expressions must fail)");
     let coverage = cov(json!({
         "evaluations": evals.load(Ordering::Relaxed),
         "distinct_nontrivial": nimg,
-        "rule": "4 directives x every operand list of length 1..3 (thorough 4) over a 16-symbol alphabet (0, 1, 0x7f, width max, max+1, -1, width min, min-1, .equ symbol, forward label, expression, \"\", \"a\", \"ab\", \"a,b;c\", \"é\") x {cseg, eseg, dseg}; plus every sequence of <=3 (thorough 4) lines over {odd .db, 5-byte .db, even .db, .dw, .dd, .dq, .byte 1, .byte 3} in each segment; distinct_nontrivial = distinct non-empty-or-empty expected images that were confirmed",
+        "rule": "4 directives x every operand list of length 1..3 (thorough 4) over a 17-symbol alphabet (0, 1, 0x7f, width max, max+1, -1, width min, min-1, .equ symbol, forward label, expression, \"\", \"a\", \"ab\", \"a,b;c\", \"é\", a string with backslashes) x {cseg, eseg, dseg}; plus every sequence of <=3 (thorough 4) lines over {odd .db, 5-byte .db, even .db, .dw, .dd, .dq, .byte 1, .byte 3} in each segment; distinct_nontrivial = distinct non-empty-or-empty expected images that were confirmed",
         "exhaustive": true,
         "operand_lists": n_lists,
         "line_sequences": n_seqs,
